@@ -127,6 +127,16 @@ def rule_partial_discovery(check, rule):
             if e.kind == 'call' and e.op == af.key:
                 calls.append(e)
     st = site(None, fi.node)
+    # every path runs the discovery: no own exit (raise / return) before it, whatever the bound arguments look like
+    for p in paths:
+        has = any(e.kind == 'call' and e.op == af.key for e, g in walk_effects(p.effects))
+        if not has and p.status in ('raise', 'return', 'fall'):
+            last = [e for e in p.effects if e.kind in ('raise', 'return')]
+            k = 'autoforwards_partial|early-exit|%s' % lits_text(p.lits)[:80]
+            check.violation(rule, site(None, last[-1].node) if last else st, 'autoforwards_partial leaves (%s) without running discovery on '
+                            '<partial>.func under %s: such partial objects get the plain signature although the wrapped function forwards its '
+                            'star parameters' % (p.status, lits_text(p.lits)[:100] or 'no condition'), key=k,
+                            witness="partial(wrapper, a=1) over a wrapper forwarding *args/**kwargs: discovery must still look through it")
     if not calls:
         check.violation(rule, st, 'autoforwards_partial does not run discovery on <partial>.func', key='autoforwards_partial|call',
                         witness="signature(partial(wrapper, inner)) must look through the partial")
